@@ -124,10 +124,10 @@ def c10_req(nonev: int, ins: bool, ma: int, mb: int, mc: int,
 def c10_shapes(shape: int, mx: int, my: int, m2: int, bx: bool, by: bool, b2: bool,
                vx: int, vy: int, v2: int, cx: int, cy: int, c2: int, ca: int) -> bool:
   """
-  pre: 0 <= shape < 3 and 0 <= mx < 3 and 0 <= my < 3 and 0 <= m2 < 4
+  pre: 0 <= shape < 5 and 0 <= mx < 3 and 0 <= my < 3 and 0 <= m2 < 4
   """
   world.fresh()
-  shape = rt.pick(shape, 3)
+  shape = rt.pick(shape, 5)
   mx = rt.pick(mx, 3)   # **kwargs name x: absent / REQUIRED / value
   my = rt.pick(my, 3)
   m2 = rt.pick(m2, 4)
@@ -170,15 +170,19 @@ def c10_shapes(shape: int, mx: int, my: int, m2: int, bx: bool, by: bool, b2: bo
       if v is R:
         return False
     return rt.same('a', args[0], ca) and kwargs == want
-  if shape == 1:
+  if shape in (1, 3, 4):
     # class: b has signature REQUIRED; m2: omitted / pos REQUIRED / kw REQUIRED / value
-    if b2: gin.bind_parameter('vw.ReqK.b', v2)
+    # (shape 1: @gin.configurable class; 3: @gin.register class reached through get_configurable;
+    #  4: external_configurable wrapper)
+    cname = {1: 'ReqK', 3: 'ReqReg', 4: 'ReqExt'}[shape]
+    target = {1: world.ReqK, 3: gin.get_configurable(world.ReqReg), 4: world.ReqExt}[shape]
+    if b2: gin.bind_parameter('vw.%s.b' % cname, v2)
     pos, kw = [ca], {}
     if m2 == 1: pos.append(R)
     elif m2 == 2: kw['b'] = R
     elif m2 == 3: kw['b'] = c2
     try:
-      world.ReqK(*pos, **kw)
+      target(*pos, **kw)
     except Exception as e:
       exc = e
     if m2 != 3 and not b2:
@@ -186,7 +190,7 @@ def c10_shapes(shape: int, mx: int, my: int, m2: int, bx: bool, by: bool, b2: bo
         return False
       head, names = _parse_missing(str(exc))
       with rt.native():
-        return names == ['b'] and '`ReqK`' in head
+        return names == ['b'] and ('`%s`' % cname) in head
     if exc is not None or len(world.LOG) != 1:
       return False
     _, args, kwargs, _ = world.LOG[0]
@@ -211,22 +215,28 @@ def c10_shapes(shape: int, mx: int, my: int, m2: int, bx: bool, by: bool, b2: bo
   return isinstance(exc, ValueError) and not world.LOG
 
 
-def c10_register(sig_a: bool, sig_b: bool, allow: int, deny: int, api: int, v: int) -> bool:
+def c10_register(kind: int, sig_a: bool, sig_b: bool, allow: int, deny: int, api: int, v: int) -> bool:
   """
-  pre: 0 <= allow < 4 and 0 <= deny < 4 and 0 <= api < 3
+  pre: 0 <= allow < 4 and 0 <= deny < 4 and 0 <= api < 3 and 0 <= kind < 2
   """
   world.fresh()
   sig_a, sig_b = rt.flag(sig_a), rt.flag(sig_b)
   allow = [None, ['a'], ['b'], ['a', 'b']][rt.pick(allow, 4)]
   deny = [None, ['a'], ['b'], ['a', 'b']][rt.pick(deny, 4)]
   api = rt.pick(api, 3)
-  rt.sig(('register', sig_a, sig_b, allow, deny, api), nontrivial=sig_a or sig_b)
+  kind = rt.pick(kind, 2)            # 0: a function, 1: a class (its __init__ carries the markers)
+  rt.sig(('register', kind, sig_a, sig_b, allow, deny, api), nontrivial=sig_a or sig_b)
   with rt.native():
     da = R if sig_a else 1
     db = R if sig_b else 2
 
     def c10tmp(a=da, b=db):
       world.rec('c10tmp', a, b)
+
+    if kind == 1:
+      class c10tmp:   # noqa: F811
+        def __init__(self, a=da, b=db):
+          world.rec('c10tmp', a, b)
 
     before = set(gc._REGISTRY._selector_map)
   exc = None
@@ -294,16 +304,16 @@ HARNESSES = {
         anchors=['gin.config:gin_wrapper'],
         smoke=[dict(shape=0, mx=1, my=1, m2=1, bx=False, by=False, b2=False, vx=1, vy=2,
                     v2=3, cx=4, cy=5, c2=6, ca=7)],
-        tiers={'quick': dict(split=dict(shape=[0, 1, 2]), budget_s=100),
-               'thorough': dict(split=dict(shape=[0, 1, 2], m2=[0, 1, 2, 3]), budget_s=300)},
-        bounds='**kwargs names marked REQUIRED in both keyword orders; class with signature '
-               'REQUIRED; REQUIRED at each *args position'),
+        tiers={'quick': dict(split=dict(shape=[0, 1, 2, 3, 4]), budget_s=100),
+               'thorough': dict(split=dict(shape=[0, 1, 2, 3, 4], m2=[0, 1, 2, 3]), budget_s=300)},
+        bounds='**kwargs names marked REQUIRED in both keyword orders; classes with signature '
+               'REQUIRED (@configurable, @register reached through get_configurable, external_configurable); REQUIRED at each *args position'),
     'c10_register': dict(
         fn='c10_register',
         anchors=['gin.config:_get_validated_required_kwargs', 'gin.config:_make_configurable'],
-        smoke=[dict(sig_a=True, sig_b=False, allow=2, deny=0, api=0, v=5),
-               dict(sig_a=True, sig_b=False, allow=1, deny=0, api=1, v=5)],
-        tiers={'quick': dict(split=dict(api=[0, 1, 2]), budget_s=100),
-               'thorough': dict(split=dict(api=[0, 1, 2], allow=[0, 1, 2, 3]), budget_s=300)},
-        bounds='signature REQUIRED on a and/or b x 4 allowlists x 4 denylists x 3 registration APIs'),
+        smoke=[dict(kind=0, sig_a=True, sig_b=False, allow=2, deny=0, api=0, v=5),
+               dict(kind=1, sig_a=True, sig_b=False, allow=1, deny=0, api=1, v=5)],
+        tiers={'quick': dict(split=dict(api=[0, 1, 2], kind=[0, 1]), budget_s=100),
+               'thorough': dict(split=dict(api=[0, 1, 2], kind=[0, 1], allow=[0, 1, 2, 3]), budget_s=300)},
+        bounds='a function or a class with signature REQUIRED on a and/or b x 4 allowlists x 4 denylists x 3 registration APIs'),
 }
